@@ -261,7 +261,9 @@ Theorem C04_sender_fc_refines : forall s,
 Proof. exact fc_refines. Qed.
 Print Assumptions C04_sender_fc_refines.
 
-(** (a) for every history: per stream, the payload of all first transmissions = writeOffset = what
+(** (a) for every history — for STREAM frames only: the final size announced by a RESET_STREAM_AT is
+    NOT covered by this or any other theorem (open finding reset-final-size-beyond-*-limit) —
+    per stream, the payload of all first transmissions = writeOffset = what
     the stream controller counted, and it is within the stream's send limit; summed over the
     streams it is what the connection controller counted, within the connection's send limit. *)
 Theorem C04_sender_glue_within_credit : forall ops, Forall gop_ok ops ->
@@ -401,3 +403,34 @@ Theorem C04_connglue_blocked_at_limit : forall s conn l s1 c1 e blk,
   sendWindow (cs_fc s1) = sendWindow (cs_fc s).
 Proof. exact drain_stream_exact. Qed.
 Print Assumptions C04_connglue_blocked_at_limit.
+
+(** ** Composition with C03 (audit round): the receive-side caller discipline assumed above
+    ([op_ok (SRead i n)]: a read consumes at most received - read; [rop_ok (ORead n called cls)]: bytes
+    delivered <= received, io.EOF only at the final offset, the cancellation error only when the
+    cancellation is effective) is what C03's model of receive_stream.go over the frame sorter
+    guarantees for every Read in every reachable state of ITS histories: the bytes delivered are
+    >= 0 and <= the request, the read position advances by exactly that much and stays <= the
+    flow controller's highestReceived; io.EOF only with the final size known and readPos = final
+    size = highestReceived; a cancellation error only when cancelled locally or the remote
+    cancellation is effective (reliableSize <= readPos). [S] = the stream contents.
+    Not a Coq theorem: that C03's [rpos] / [fc_highest] / [finalOffset] and RecvModel's [readPos] /
+    [highestReceived] / [finalOffset] are the same Go fields (each model is replayed against the
+    code by its own unit), and that AddBytesRead is called with exactly the bytes delivered (the
+    recvglue monitor read-accounting checks it on every Read). *)
+From V Require FrameSorter.Model RecvStream.Model RecvStream.Spec RecvStream.ProofsRecv FlowCtl.RecvCompose.
+
+Theorem C04_read_discipline_from_C03 : forall (S : Z -> Z) w ops r n s' d e bug,
+  0 <= w < FrameSorter.Model.MaxBC -> Forall RecvStream.Spec.rvalid ops ->
+  RecvStream.Spec.rsrun S (RecvStream.Spec.rrun_init w) ops = Some r -> 0 <= n ->
+  RecvStream.Model.Read (RecvStream.Spec.rr_st r) n = (s', d, e, bug) ->
+  0 <= FrameSorter.Model.len d <= n /\
+  RecvStream.Model.rpos s' = RecvStream.Model.rpos (RecvStream.Spec.rr_st r) + FrameSorter.Model.len d /\
+  RecvStream.Model.rpos s' <= RecvStream.Model.fc_highest s' /\
+  (e = RecvStream.Model.EEOF ->
+     RecvStream.Model.fc_final s' = true /\ RecvStream.Model.rpos s' = RecvStream.Model.finalOffset s' /\
+     RecvStream.Model.finalOffset s' = RecvStream.Model.fc_highest s') /\
+  (forall c r0, e = RecvStream.Model.ECancel c r0 ->
+     RecvStream.Model.cancelledLocally s' = true \/
+     (RecvStream.Model.cancelledRemotely s' = true /\ RecvStream.Model.reliableSize s' <= RecvStream.Model.rpos s')).
+Proof. exact FlowCtl.RecvCompose.read_discipline_reachable. Qed.
+Print Assumptions C04_read_discipline_from_C03.
